@@ -28,6 +28,13 @@ Check (C19_answers_history_independent :
        a_src a1 = a_src a2 /\
        (a_state a1 = Typechecked -> a_state a2 = Typechecked -> same_diags (a_tdiags a1) (a_tdiags a2)))).
 
+Check (C19_no_dup_no_stale : forall cf pick disk rank fuel h w, good pick disk rank fuel h ->
+  (purge_closed cf = true \/ no_close h) ->
+  run cf pick disk fuel h = Ok w ->
+  (forall p ds, w_pub w p = Some ds -> live_id w p <> None ->
+     same_diags ds (expect (final_docs disk h) fuel p)) /\
+  (forall p, bufs_after no_bufs h p <> None -> w_pub w p <> None)).
+
 Check (C19_rev_imports_complete : forall cf pick disk rank fuel h w, good pick disk rank fuel h ->
   run cf pick disk fuel h = Ok w ->
   forall f a q, w_an w f = Some a -> a_state a = Typechecked ->
